@@ -53,8 +53,13 @@ def rscript(rng, data, fail=None):
         evs.append("D" + data[i:i + k].hex()); i += k
     if fail is not None:
         evs += fail[1]
-    elif rng.random() < 0.3:
-        evs.append("D" + rbytes(rng, rng.randint(1, 3)).hex())   # bytes left over in the reader: must not be consumed
+    elif rng.random() < 0.4:
+        extra = rbytes(rng, rng.randint(1, 7)).hex()              # bytes left over in the reader: must not be consumed
+        if evs and evs[-1].startswith("D") and rng.random() < 0.5:
+            evs[-1] += extra        # ... also when they arrive in the SAME chunk as the end of the header (as they do on a socket): a wrapper
+                                    # that reads through a larger buffer of its own swallows them
+        else:
+            evs.append("D" + extra)
     return ",".join(evs) if evs else "-"
 
 def wscript(rng, n, fail=False):
